@@ -43,13 +43,16 @@ where
     };
 
     // headers
+    // every field line counts against `max_headers`, including the ones dropped below
+    let mut fields = 0;
     loop {
         buffers::read_line_strict(reader, &mut line, MAX_LINE_LEN)?;
         if line.is_empty() {
             break;
-        } else if headers.len() == max_headers {
+        } else if fields == max_headers {
             return Err(InvalidResponseKind::Header.into());
         }
+        fields += 1;
 
         let col = line
             .iter()
